@@ -12,9 +12,14 @@
                                        whose controller reference carries uid;
      cs           which of duration / renewBefore / usages / issuerRef.group certNeedsUpdate compares
                   besides its seven fixed fields (probed on the real function on every run);
-     good s       s is a sorted map keyed by object name in which every Certificate that has a
-                  controller is named after its spec.secretName (true of the empty cluster, of any
-                  cluster whose owned Certificates were created by this controller, and preserved). *)
+     good_for uid s   s is a sorted map keyed by object name in which every Certificate controlled by uid
+                  is named after its spec.secretName.  Nothing is asked of objects with no owner or a
+                  foreign owner.  True of the empty cluster and of any cluster in which uid controls
+                  nothing or only what this controller created; preserved by every synchronization of
+                  every VirtualServer.  (Without it: a controlled Certificate whose spec.secretName was
+                  edited by hand is updated and then deleted by the same synchronization, because the
+                  removal list is computed from the lister as it was before the update; reproduced on
+                  the real code by the harness history witness-hand-edited-secretname.) *)
 From Coq Require Import List ZArith String Bool Permutation.
 From NIC Require Import Base.SMap Sync.Model Sync.Proofs.
 Import ListNotations.
@@ -39,13 +44,14 @@ Theorem C20_foreign_untouched :
 Proof. exact foreign_untouched. Qed.
 Print Assumptions C20_foreign_untouched.
 
-(* Certificates: in any cluster reachable by any history from a good cluster, a synchronization that
+(* Certificates: in any cluster reachable by any history from a cluster that is good for the
+   VirtualServer, a synchronization that
    returns no error (hence met no fault) is followed by a second one of the same VirtualServer that
    issues no write and leaves the cluster as it is -- whatever faults are armed for it. *)
 Theorem C20_idempotent_cert :
-  forall cs (h : list event) (s0 : smap cert),
-    good s0 ->
-    forall v ord ord' fs fs' st1 lg, perm_fun ord -> perm_fun ord' ->
+  forall cs (h : list event) (s0 : smap cert) v,
+    good_for (v_uid v) s0 ->
+    forall ord ord' fs fs' st1 lg, perm_fun ord -> perm_fun ord' ->
       sync_cert cs ord v fs (run_cert cs h s0) = (st1, lg, ROk) ->
       sync_cert cs ord' v fs' st1 = (st1, [], ROk).
 Proof. exact idempotent_cert. Qed.
@@ -90,9 +96,9 @@ Print Assumptions C20_fresh_dns.
    issue-temporary-certificate annotation is always the old one; an object not controlled by the
    VirtualServer stays what it was. *)
 Theorem C20_fresh_cert_partial :
-  forall cs (h : list event) (s0 : smap cert),
-    good s0 ->
-    forall v ord fs st1 lg t cm, perm_fun ord ->
+  forall cs (h : list event) (s0 : smap cert) v,
+    good_for (v_uid v) s0 ->
+    forall ord fs st1 lg t cm, perm_fun ord ->
       v_tls v = Some t -> t_cm t = Some cm ->
       sync_cert cs ord v fs (run_cert cs h s0) = (st1, lg, ROk) ->
       exists crt, wanted_cert v = Some crt /\
@@ -132,9 +138,9 @@ Print Assumptions C20_fresh_cert_refuted.
    the VirtualServer controls afterwards is the one named after its current secret -- older ones
    (secret rename) are deleted. *)
 Theorem C20_gc_cert_partial :
-  forall cs (h : list event) (s0 : smap cert),
-    good s0 ->
-    forall v ord fs st1 lg, perm_fun ord -> cert_feature_on v = true ->
+  forall cs (h : list event) (s0 : smap cert) v,
+    good_for (v_uid v) s0 ->
+    forall ord fs st1 lg, perm_fun ord -> cert_feature_on v = true ->
       sync_cert cs ord v fs (run_cert cs h s0) = (st1, lg, ROk) ->
       forall k o, lookup k st1 = Some o -> controlled_by (c_owner o) (v_uid v) = true ->
                   exists t, v_tls v = Some t /\ k = t_secret t.
@@ -161,11 +167,12 @@ Print Assumptions C20_gc_dns_refuted.
 
 (* ---------------------------------------------------------------- non-vacuity *)
 
-(* a cluster with an unowned s1, a foreign-owned s2 and a stale owned s3; the VirtualServer names s1,
+(* a cluster with an unowned s1, a foreign-owned s2 (whose secretName is not its name) and a stale
+   owned s3; the VirtualServer names s1,
    then is renamed to s4, with a conflict injected into the first delete *)
 Definition ex_spec (secret : string) : cert_spec := mkCertSpec "" ["old.example.com"] secret "old" "Issuer" "" None None ["server auth"] false.
 Definition ex_store : smap cert :=
-  [("s1", mkCert "s1" ONone [] None (ex_spec "s1")); ("s2", mkCert "s2" (OCtl "uid-x") [] None (ex_spec "s2"));
+  [("s1", mkCert "s1" ONone [] None (ex_spec "s1")); ("s2", mkCert "s2" (OCtl "uid-x") [] None (ex_spec "tls-x"));
    ("s3", mkCert "s3" (OCtl "uid-a") [] None (ex_spec "s3"))].
 Definition ex_vs (secret : string) : vs :=
   mkVs "vs-a" "uid-a" [("app", "x")] "a.example.com" (Some (mkTls secret (Some (w_cm "" (hours 2160) DNone "server auth" true))))
@@ -183,12 +190,15 @@ Ltac by_key L k :=
          end;
   try discriminate L.
 
-Example C20_nonvacuous_good : good ex_store.
+Example C20_nonvacuous_good : good_for "uid-a" ex_store.
 Proof.
   split; [|split].
   - repeat (constructor; [|intros k' Hin; cbn in Hin; repeat (destruct Hin as [<-|Hin]; [reflexivity|]); destruct Hin]). constructor.
   - intros k o L. by_key L k.
-  - intros uid k o L _. by_key L k.
+  - intros k o L C. cbn in L.
+    destruct (String.eqb k "s1"); [inversion L; subst; reflexivity|].
+    destruct (String.eqb k "s2"); [inversion L; subst; discriminate C|].
+    destruct (String.eqb k "s3"); [inversion L; subst; reflexivity|discriminate L].
 Qed.
 
 Example C20_nonvacuous_ords : ords_ok ex_hist.
@@ -202,3 +212,17 @@ Example C20_nonvacuous_trace :
   map fst (run_cert cs_current ex_hist ex_store) = ["s1"; "s2"; "s4"] /\
   map (fun x => snd x) (trace_dns ex_hist []) = [[(VCreate, "vs-a")]; []; []; []].
 Proof. vm_compute. repeat split. Qed.
+
+(* the hypotheses of the idempotence / freshness / gc theorems are met with a non-empty action log:
+   on ex_store the first synchronization succeeds, refuses the unowned s1 and deletes the stale s3;
+   the DNSEndpoint controller creates vs-a, and the stored object is the wanted one *)
+Example C20_nonvacuous_sync_ok :
+  exists st1, sync_cert cs_current idord (ex_vs "s1") [] (run_cert cs_current [] ex_store) = (st1, [(VDelete, "s3")], ROk) /\
+              cert_feature_on (ex_vs "s1") = true /\ perm_fun idord.
+Proof. eexists. split; [vm_compute; reflexivity|]. split; [reflexivity|]. intros l. apply Permutation_refl. Qed.
+
+Example C20_nonvacuous_dns_ok :
+  exists st1 d, sync_dns (ex_vs "s1") [] (run_dns [] []) = (st1, [(VCreate, "vs-a")], ROk) /\
+                wanted_dns (ex_vs "s1") = Some d /\ lookup "vs-a" st1 = Some d /\
+                e_targets (hd (mkEndpoint "" [] "" 0 None []) (d_eps d)) = ["10.0.0.1"; "lb.example.com"].
+Proof. do 2 eexists. repeat split; vm_compute; reflexivity. Qed.
